@@ -132,13 +132,15 @@ Proof.
   destruct (m_getattr st name) as [[[sg rn] g]|k|] eqn:EG; [|inversion E; subst; assumption|discriminate].
   destruct (tracked_getattr _ _ _ _ _ Hinv EG) as [Hsg Hg].
   destruct g as [[a|w l]|[ds|dl]]; try discriminate; try (inversion E; subst; assumption).
-  destruct (negb on_modify_before_op); [discriminate|].
+  change on_modify_before_op with false in E. cbv iota in E.
   pose proof (Hg _ eq_refl) as Hc.
-  destruct (if w && is_wrapped o then mark_unsaved sg rn else Ok sg) as [s2|k|] eqn:EM; cbn [bind] in E; try discriminate.
-  assert (tracked_inv s2 /\ m_config s2 = m_config sg) as [Hs2 Hcfg].
-  { destruct (w && is_wrapped o); [eapply tracked_mark_unsaved; eassumption|inversion EM; subst; auto]. }
-  destruct (py_list_op o l) as [l'|k]; inversion E; subst; [|assumption].
-  eapply tracked_with_config_same; [assumption|]. rewrite Hcfg. exact Hc.
+  destruct (py_list_op o l) as [l'|k]; [|inversion E; subst; assumption].
+  cbv zeta in E.
+  pose proof (tracked_with_config_same sg rn w l l' Hsg Hc) as Hs2.
+  match type of E with bind ?r _ = _ => destruct r as [s3|k|] eqn:EM end; cbn [bind] in E; try discriminate.
+  inversion E; subst.
+  destruct (w && is_wrapped o); [|inversion EM; subst; assumption].
+  eapply tracked_mark_unsaved; eassumption.
 Qed.
 
 Lemma tracked_setattr st name v st1 : tracked_inv st -> m_setattr st name v = Ok st1 -> tracked_inv st1.
@@ -215,8 +217,11 @@ Proof.
     + match type of E with (match ?r with _ => _ end) = _ => destruct r as [cv|k'|] eqn:ER end.
       * inversion E. apply tracked_set_config; [assumption|].
         intros [Hsp [pk' [vk' Hp]]]. rewrite EP in Hp. inversion Hp. subst pk' vk' il.
+        unfold conf_changed_value in ER. cbn [negb] in ER. rewrite andb_false_r in ER.
         destruct (parse pk (pyval_of_kw v0)) as [parsed|e|]; cbn [bind] in ER; try discriminate.
-        destruct parsed as [a|l]; [discriminate|]. inversion ER. eauto.
+        destruct parsed as [a|l]; [discriminate|].
+        match type of ER with bind ?r _ = _ => destruct r as [l'|?|] end; cbn [bind] in ER; try discriminate.
+        inversion ER. eauto.
       * destruct ((k' =? E_Value) || (k' =? E_Type)); inversion E. subst. assumption.
       * discriminate.
     + inversion E. apply tracked_set_config; [assumption|].
@@ -311,14 +316,15 @@ Proof.
   assert (boot_inv sx) as HX.
   { destruct (suffixb PortLines_sfx name); [|inversion E1; subst; assumption].
     destruct (lookup_type (bs "String")) as [[[spk svk] sil]|] eqn:ES; [|discriminate].
-    match type of E1 with bind ?r _ = _ => destruct r as [ini|k|] end; cbn [bind] in E1; try discriminate.
     inversion E1. apply boot_set; [assumption|eapply lookup_type_known; eassumption|eauto]. }
   destruct (mem_bytes value skip_types); [inversion H; subst; assumption|].
   destruct (lookup_type (plus_to_underscore value)) as [[[pk vk] il]|] eqn:ET; [|discriminate].
   pose proof (lookup_type_known _ _ ET) as Hty.
   destruct il.
   - match type of H with bind ?r _ = _ => destruct r as [parsed|k|] end; cbn [bind] in H; try discriminate.
-    destruct parsed as [a|l]; [discriminate|]. inversion H.
+    destruct parsed as [a|l]; [discriminate|].
+    match type of H with bind ?r _ = _ => destruct r as [l'|k|] end; cbn [bind] in H; try discriminate.
+    inversion H.
     apply (boot_set sx (find_real_name sx name) pk vk true); [assumption|assumption|eauto].
   - match type of H with bind ?r _ = _ => destruct r as [parsed|k|] end; cbn [bind] in H; try discriminate.
     inversion H. apply (boot_set sx (find_real_name sx name) pk vk false); [assumption|assumption|discriminate].
@@ -372,15 +378,18 @@ Proof.
   intros HG HU HO.
   destruct (getattr_config _ _ _ _ _ HG) as [Hrn Hc].
   unfold m_listop. rewrite HG.
-  assert (negb on_modify_before_op = false) as -> by reflexivity.
-  rewrite all_ops_wrapped. cbn [andb]. unfold mark_unsaved. rewrite <- Hrn, beqb_refl. cbn [negb].
-  assert (dmem k (m_config st) = true) as -> by (unfold dmem; now rewrite Hc).
-  rewrite HU. cbn [andb negb bind]. rewrite HO.
+  change on_modify_before_op with false. cbv iota. rewrite HO. cbv zeta.
+  rewrite all_ops_wrapped. cbn [andb]. unfold mark_unsaved.
+  assert (find_real_name (with_config st (dset k (CList true l') (m_config st))) k = k) as ->.
+  { rewrite Hrn at 3. unfold find_real_name. cbn [with_config m_parsers m_config]. now rewrite keys_dset_mem by (unfold dmem; now rewrite Hc). }
+  rewrite beqb_refl. cbn [negb with_config m_config m_unsaved].
+  assert (dmem k (dset k (CList true l') (m_config st)) = true) as -> by (unfold dmem; now rewrite dget_dset_same).
+  rewrite HU. cbn [andb negb bind].
   eexists. split; [reflexivity|]. cbn [with_config with_unsaved m_unsaved m_config].
   split; [|split].
   - apply dset_new_app. unfold dmem in HU. destruct (dget k (m_unsaved st)); [discriminate|reflexivity].
   - reflexivity.
-  - unfold item_args. cbn [fst snd resolve with_config m_config]. now rewrite dget_dset_same.
+  - unfold item_args. cbn [fst snd resolve with_config with_unsaved m_config]. now rewrite dget_dset_same.
 Qed.
 
 (* ================================================================== witnesses of the open findings *)
@@ -392,14 +401,14 @@ Definition p_input store defaults ops : cfg_input :=
 Definition p_store : list (bytes * list bytes) :=
   [(bs "SocksPort", [bs "9050"]); (bs "Log", [bs "notice stdout"]); (bs "Nickname", [bs "bob"]); (bs "NumCPUs", [bs "2"])].
 
-(* F1: the port list is unset and config/defaults has one line for it *)
+(* former F1: the port list is unset and config/defaults has one line for it *)
 Definition w11_f1 := p_input [(bs "NumCPUs", [bs "2"])] (Some [(bs "SocksPort", bs "9050")]) [OpRead (bs "SocksPort")].
-(* F2: CONF_CHANGED names the port list *)
+(* former F2: CONF_CHANGED names the port list *)
 Definition w11_f2 := p_input p_store (Some []) [OpEvent [(bs "SocksPort", Some (bs "8888"))]; OpSocks].
-(* F3: two values, then a keyword-only line *)
+(* former F3: two values, then a keyword-only line *)
 Definition w11_f3 := p_input p_store (Some [])
   [OpEvent [(bs "Log", Some (bs "info file /tmp/x")); (bs "Log", Some (bs "err stderr")); (bs "Nickname", None)]].
-(* F4: default of an unset comma list *)
+(* former F4: default of an unset comma list *)
 Definition w11_f4 := p_input p_store (Some [(bs "ExitNodes", bs "x,y")]) [OpRead (bs "exitnodes")].
 (* F5: edit, CONF_CHANGED for the same option, edit, save *)
 Definition w11_f5 := p_input p_store (Some [])
@@ -421,14 +430,46 @@ Definition refutes11 (i : cfg_input) : Prop :=
 
 Ltac refute := split; [split; [vm_compute; reflexivity|eexists _, _; split; vm_compute; reflexivity]|vm_compute; reflexivity].
 
-Lemma f11_1_refuted : refutes11 w11_f1 /\ portlist_bootstrap_irregular w11_f1 = true.
-Proof. refute. Qed.
-Lemma f11_2_refuted : refutes11 w11_f2 /\ portlist_conf_changed w11_f2 = true.
-Proof. refute. Qed.
-Lemma f11_3_refuted : refutes11 w11_f3 /\ conf_changed_multi_then_keyword w11_f3 = true.
-Proof. refute. Qed.
-Lemma f11_4_refuted : refutes11 w11_f4 /\ comma_default_unsplit w11_f4 = true.
-Proof. refute. Qed.
+(* the former findings F1-F4 (repaired in the source): the same witnesses are now accepted, in no
+   open class, and the observation that used to be wrong is the right one *)
+Definition accepted11 (i : cfg_input) (k : nat) (r : ores) : Prop :=
+  c11_scope i = true /\ c11_known i = false /\
+  exists snap tr, model_run i = Some (true, snap, tr) /\ Spec.C11.oracle i true snap tr = true
+                  /\ option_map o_res (nth_error tr k) = Some r.
+
+Ltac accept := split; [vm_compute; reflexivity|]; split; [vm_compute; reflexivity|];
+               eexists _, _; split; [vm_compute; reflexivity|]; split; vm_compute; reflexivity.
+
+(* unset port list with one config/defaults line: a tracked list holding that line *)
+Lemma f11_1_now_accepted : accepted11 w11_f1 0 (XVal (RList true [bs "9050"])).
+Proof. accept. Qed.
+(* CONF_CHANGED for a port list: still a list of lines, socks_endpoint() follows it *)
+Lemma f11_2_now_accepted : accepted11 w11_f2 1 (XSocks (SockTcp (bs "127.0.0.1") 8888)).
+Proof. accept. Qed.
+(* two values then a keyword-only line: both values are kept, the other option reads as unset *)
+Lemma f11_3_now_accepted :
+  accepted11 w11_f3 0 (XEvent false [RGot (RList true [bs "9050"]);
+                                     RGot (RList true [bs "info file /tmp/x"; bs "err stderr"]);
+                                     RGot (RList true []); RGot (RAtom (AStr (bs "DEFAULT"))); RGot (RAtom (AInt 2))]).
+Proof. accept. Qed.
+(* the default of an unset comma list is split *)
+Lemma f11_4_now_accepted : accepted11 w11_f4 0 (XVal (RList true [bs "x"; bs "y"])).
+Proof. accept. Qed.
+
+(* a port list that Tor reports as "auto" when attaching reads as its default lines (reading (2) of
+   Spec.CfgOracle.worlds); unset by an event it reads as the default lines again, as a fresh
+   tracked list; read-edit-save on it sends the edited lines *)
+Definition w11_auto := p_input [(bs "SocksPort", [bs "auto"]); (bs "NumCPUs", [bs "2"])]
+  (Some [(bs "SocksPort", bs "9050"); (bs "SocksPort", bs "9150 IsolateDestAddr")])
+  [OpRead (bs "socksport"); OpEvent [(bs "SocksPort", Some (bs "auto"))]; OpRead (bs "SocksPort");
+   OpEvent [(bs "SocksPort", None)]; OpListOp (bs "SocksPort") (LAppend (AStr (bs "unix:/run/tor/socks")));
+   OpSave None; OpSocks].
+Lemma f11_auto_accepted :
+  accepted11 w11_auto 0 (XVal (RList true [bs "9050"; bs "9150 IsolateDestAddr"])) /\
+  accepted11 w11_auto 2 (XVal (RList true [bs "auto"])) /\
+  accepted11 w11_auto 6 (XSocks (SockTcp (bs "127.0.0.1") 9050)).
+Proof. split; [accept|split; accept]. Qed.
+
 Lemma f11_5_refuted : refutes11 w11_f5 /\ edit_while_detached w11_f5 = true.
 Proof. refute. Qed.
 
